@@ -60,7 +60,7 @@ func canLoad(c config, srv string) bool {
 
 func main() {
 	run := report.New("C10", "exploration")
-	run.Rule("configs = CDP set{http, https-untrusted, ldap, ldap+http, unparsable URL, refused+http, http shared by two certificates, http with a loaded sibling at the same host and path on another port (sampled)} x fetch mode x signature mode{verify,none} x backend x strict; histories over {server:=down|garbage|bad signature|good, handshake, refresh, restart} (+ for http/disk/strict five histories with a one-shot store-swap fault: the staged database vanishes before it is moved into place) starting with a server state: all of length <=3 (quick) / <=4 (thorough) plus seeded longer ones, sampled for the two slow sets; reference model tracks whether a CRL for the set can be in force; oracle: strict => a handshake is accepted only if the model allows 'in force' at that instant; lenient => an unlisted certificate is never denied; non-trivial = history with >=1 handshake whose verdict the model constrains (strict: accepted-and-allowed or denied-while-not-in-force; lenient: any); distinct = config + history")
+	run.Rule("configs = CDP set{http, https-untrusted, ldap, ldap+http, unparsable URL, refused+http, http shared by two certificates, http with a loaded sibling at the same host and path on another port or at the same host and port with a path in another letter case (sampled, alternating)} x fetch mode x signature mode{verify,none} x backend x strict; histories over {server:=down|garbage|bad signature|good, handshake, refresh, restart} (+ for http/disk/strict five histories with a one-shot store-swap fault: the staged database vanishes before it is moved into place) starting with a server state: all of length <=3 (quick) / <=4 (thorough) plus seeded longer ones, sampled for the two slow sets; reference model tracks whether a CRL for the set can be in force; oracle: strict => a handshake is accepted only if the model allows 'in force' at that instant; lenient => an unlisted certificate is never denied; non-trivial = history with >=1 handshake whose verdict the model constrains (strict: accepted-and-allowed or denied-while-not-in-force; lenient: any); distinct = config + history")
 	run.Assume("'down' = HTTP 500 (no loader retries); refused / TLS-untrusted locations are sampled because each attempt costs 2 s of loader retries", "background mode: a verdict racing with the triggered load may be either; the model allows both")
 	scratch, _ := report.Scratch("C10")
 	sut.QuietStderr(filepath.Join(scratch, "stderr.log"))
@@ -236,8 +236,17 @@ func runHistory(run *report.Run, w *world.World, c config, h []string, scratch s
 	if c.Set == "http-port-sibling" {
 		// a CRL of the same CA at the same host and path but another port is in force before the
 		// history starts; it says nothing about the distribution point under test
-		w.OCSP.Set(path, origin.Good(goodCRL))
-		sib := w.Leaf(gen.SerialOfWidth(rand.New(rand.NewSource(int64(hn))), 12, false), []string{w.OCSP.URL(path)}, nil)
+		// (odd histories: the sibling is at the same host and port, its path differs in letter case only)
+		sibURL := w.OCSP.URL(path)
+		if hn%2 == 1 {
+			sibPath := strings.ToUpper(path)
+			w.CRL.Set(sibPath, origin.Good(goodCRL))
+			sibURL = w.CRL.URL(sibPath)
+			run.Count("case_sibling_histories", 1)
+		} else {
+			w.OCSP.Set(path, origin.Good(goodCRL))
+		}
+		sib := w.Leaf(gen.SerialOfWidth(rand.New(rand.NewSource(int64(hn))), 12, false), []string{sibURL}, nil)
 		_, _ = chk.Ask(sib) // background mode: the first question only triggers the load
 		if _, err := chk.Ask(sib); err != nil && c.Strict {
 			run.Inconclusive("sibling distribution point on the other port could not be loaded: " + err.Error())
